@@ -501,7 +501,7 @@ func (s *seqRT) ruleStart() (gen AV, st *State, in *Interp, ok bool) {
 // ------------------------------------------------------------------ SEQ.FOR
 
 type forCase struct {
-	ctor            string
+	ctor             string
 	condNil, postNil bool
 }
 
